@@ -165,7 +165,24 @@ impl GenSource {
                 let t = *rng.pick(&[3usize, 64, 65, 128, 254]);
                 gen_name_of_len(rng, t)
             }
-            3 | 4 => {
+            3 => {
+                // the current name with the case of its letters flipped
+                match cur {
+                    Some(c) => {
+                        let mut n = c.clone();
+                        for l in n.0.iter_mut() {
+                            for b in l.iter_mut() {
+                                if b.is_ascii_alphabetic() {
+                                    *b ^= 0x20;
+                                }
+                            }
+                        }
+                        n
+                    }
+                    None => gen_ldh_name(rng),
+                }
+            }
+            4 => {
                 // same length as the current name
                 match cur {
                     Some(c) => {
